@@ -11,7 +11,7 @@
 (* Layout dimensions (strict mode = exactly the freedoms C06 lists): line ends LF/CRLF,           *)
 (* indentation, blank lines, spacing on either side of := ( , ) -> {, trailing comma, bare or      *)
 (* parenthesised single output, one-line or multi-line body, blank lines between commands,        *)
-(* closing-brace indent, leading blank lines, final newlines.                                      *)
+(* closing-brace indent, leading blank lines, final newlines, lists spread over several lines.    *)
 (* Structures and (for the large random ones) their layout come from structures.json; small       *)
 (* structures flagged `exh` are rendered in the default layout, every single deviation and every  *)
 (* pair of deviations.                                                                             *)
@@ -25,13 +25,13 @@ WSLen == [none |-> 0, sp1 |-> 1, sp2 |-> 2, sp4 |-> 4, tab |-> 1]
 Default == [eol |-> "lf", indent |-> "none", blank |-> 0, declL |-> "sp1", declR |-> "sp1", taskSp |-> "sp1",
             nameLp |-> "none", lpIn |-> "none", commaL |-> "none", commaR |-> "sp1", trail |-> FALSE, rpIn |-> "none",
             arrowL |-> "sp1", arrowR |-> "sp1", parenSingle |-> FALSE, lbL |-> "sp1", body |-> "multi",
-            cmdIndent |-> "sp4", cmdBlank |-> 0, rbIndent |-> "none", lead |-> "none", finalNL |-> 1]
+            cmdIndent |-> "sp4", cmdBlank |-> 0, rbIndent |-> "none", lead |-> "none", finalNL |-> 1, listBreak |-> "none"]
 Vals == [eol |-> {"lf", "crlf"}, indent |-> {"none", "sp2", "tab"}, blank |-> {0, 1, 2}, declL |-> {"none", "sp1", "tab"},
          declR |-> {"none", "sp1", "tab"}, taskSp |-> {"sp1", "sp2", "tab"}, nameLp |-> {"none", "sp1"}, lpIn |-> {"none", "sp1"},
          commaL |-> {"none", "sp1"}, commaR |-> {"none", "sp1", "tab"}, trail |-> BOOLEAN, rpIn |-> {"none", "sp1"},
          arrowL |-> {"none", "sp1"}, arrowR |-> {"none", "sp1"}, parenSingle |-> BOOLEAN, lbL |-> {"none", "sp1", "tab"},
          body |-> {"multi", "one"}, cmdIndent |-> {"none", "sp4", "tab"}, cmdBlank |-> {0, 1}, rbIndent |-> {"none", "sp2"},
-         lead |-> {"none", "lf", "sp2lf"}, finalNL |-> {0, 1, 2}]
+         lead |-> {"none", "lf", "sp2lf"}, finalNL |-> {0, 1, 2}, listBreak |-> {"none", "lines"}]
 Dims == DOMAIN Default
 Layouts1 == UNION {{[Default EXCEPT ![d] = v] : v \in Vals[d]} : d \in Dims}
 Layouts2 == UNION {UNION {{[l1 EXCEPT ![d] = v] : v \in Vals[d]} : d \in Dims} : l1 \in Layouts1}
@@ -44,12 +44,17 @@ EOL(l) == IF l.eol = "lf" THEN <<[k |-> "ws", id |-> "lf", n |-> 1, nl |-> 1]>> 
 RECURSIVE Rep(_, _)
 Rep(s, k) == IF k = 0 THEN << >> ELSE s \o Rep(s, k - 1)
 Arg(a) == IF a.k = "str" THEN Tk("STRING", a.id, LexLen[a.id] + 2) ELSE Tk("IDENT", a.id, LexLen[a.id])
+\* listBreak = "lines": a non-empty list is spread over several lines -- a line break after `(`, after every comma and before `)`.
+\* The lexer returns to the top level when a STRING is the last thing on its line, so in that layout a string element is always
+\* followed by a comma (the last one by a trailing comma); an identifier may end its line.
+Lines(as, l) == l.listBreak = "lines" /\ Len(as) > 0
 RECURSIVE Args(_, _, _)
 Args(as, i, l) == IF i > Len(as) THEN << >>
-                  ELSE Arg(as[i]) \o (IF i < Len(as) THEN W(l.commaL) \o Tk("COMMA", "", 1) \o W(l.commaR)
-                                      ELSE IF l.trail THEN W(l.commaL) \o Tk("COMMA", "", 1) ELSE << >>)
+                  ELSE Arg(as[i]) \o (IF i < Len(as) THEN W(l.commaL) \o Tk("COMMA", "", 1) \o (IF Lines(as, l) THEN EOL(l) \o W(l.cmdIndent) ELSE W(l.commaR))
+                                      ELSE IF l.trail \/ (Lines(as, l) /\ as[i].k = "str") THEN W(l.commaL) \o Tk("COMMA", "", 1) ELSE << >>)
                        \o Args(as, i + 1, l)
-ArgList(as, l) == Tk("LPAREN", "", 1) \o W(l.lpIn) \o Args(as, 1, l) \o W(l.rpIn) \o Tk("RPAREN", "", 1)
+ArgList(as, l) == Tk("LPAREN", "", 1) \o (IF Lines(as, l) THEN EOL(l) \o W(l.cmdIndent) ELSE W(l.lpIn)) \o Args(as, 1, l)
+                  \o (IF Lines(as, l) THEN EOL(l) ELSE << >>) \o W(l.rpIn) \o Tk("RPAREN", "", 1)
 Comment(id, l) == W(l.indent) \o Tk("HASH", "", 1) \o Tk("COMMENT", id, LexLen[id])
 RECURSIVE CmdLines(_, _, _)
 CmdLines(cs, i, l) == IF i > Len(cs) THEN << >>
